@@ -18,6 +18,11 @@ type Spec struct {
 	Store     bool        // store contention scenarios (C11 oracle)
 	Index     bool        // index maintenance scenario (C13 oracle)
 	Epochs    int
+	// Late: callback ids / request replies that the scenario submits while the service is started (after a
+	// restart) and whose completion it awaits (AwaitQuiescence) before it calls Shutdown again: they must run
+	// (be answered) exactly once even though the scenario also shuts the service down.
+	Late      []string
+	LateReply []string
 }
 
 type cbInfo struct {
@@ -159,6 +164,23 @@ func Judge(sp *Spec, r *vsched.Result) []string {
 					n = ci.enters
 				}
 				add("C02", "accepted callback %s ran %d times by quiescence (want exactly once)", id, n)
+			}
+		}
+	}
+	if complete {
+		for _, id := range sp.Late {
+			ci := cbs[id]
+			if retOK[id] && (ci == nil || ci.enters != 1 || ci.exits != 1) {
+				n := 0
+				if ci != nil {
+					n = ci.enters
+				}
+				add("C02", "callback %s, accepted by the restarted service, ran %d times by quiescence (want exactly once)", id, n)
+			}
+		}
+		for _, id := range sp.LateReply {
+			if injected[id] && replies[id] != 1 {
+				add("C04", "request %s to the restarted service got %d responses by quiescence (want exactly one)", id, replies[id])
 			}
 		}
 	}
